@@ -26,3 +26,6 @@ func (s *Shard) VerifSWGCEpochs() (current, processed uint64) {
 
 // VerifSWWriteCache returns the shard's write-cache (nil if disabled).
 func (s *Shard) VerifSWWriteCache() writecache.Cache { return s.writeCache }
+
+// VerifSWMetabaseReset wipes the metabase (meta.DB.Reset: drops every bucket, re-creates the static ones).
+func (s *Shard) VerifSWMetabaseReset() error { return s.metaBase.Reset() }
